@@ -10,6 +10,13 @@ def _f(mod, fn):
 
 
 PROPS = {
+    'C09': {
+        'lean': 'C09',
+        'corr': [_f('comp_chunk', 'corr')],
+        'oracles': [_f('comp_chunk', 'oracle')],
+        'modelled': ['utils.ReadFileChunk', 'upload.AggregatedProgressCallback', 'utils.StreamReaderProgress',
+                     "botocore's use of a request body (not-transferring / signing reads / seek(0) / transferring / rewinds)"],
+    },
     'C15': {
         'lean': 'C15',
         'corr': [_f('comp_args', 'corr')],
